@@ -39,6 +39,7 @@ class Impl:
         self.nmm = 0
         self.bs = list(BS)
         self.stack_dim = 0
+        self.allow_params = True   # TensorDictParams wrappers (a container of one tensordict) take part in the lock events
 
     # ---------------------------------------------------------------- helpers
     def new_leaf(self, version=0):
@@ -71,6 +72,9 @@ class Impl:
     def is_tc(self, n):
         return n is not None and not self.is_lazy(n) and "_tensordict" in getattr(n, "__dict__", {}) and not isinstance(getattr(n, "__dict__", {}).get("_tensordict"), dict)
 
+    def is_params(self, n):
+        return n is not None and "_param_td" in getattr(n, "__dict__", {})
+
     def is_lazy(self, n):
         from tensordict import LazyStackedTensorDict
         return isinstance(n, LazyStackedTensorDict)
@@ -81,6 +85,8 @@ class Impl:
             return [(str(i), m) for i, m in enumerate(n.tensordicts)]
         if self.is_tc(n):
             return list(n._tensordict._tensordict.items())
+        if self.is_params(n):
+            return [("params", n._param_td)]       # the wrapper holds exactly one tensordict, its content
         return list(n._tensordict.items())
 
     def kids(self, n):
@@ -161,6 +167,9 @@ class Impl:
             with time_limit(20):
                 self._run(ev)
             return "ok"
+        except TimeoutError as e:
+            from common import Infra
+            raise Infra(f"history event {ev[0]} exceeded the time limit ({e}): machine too loaded for a verdict")
         except KeyError:
             return "key"
         except RuntimeError as e:
@@ -184,7 +193,14 @@ class Impl:
                 self.keep.append(t)
                 d[k] = t
             # (a tensorclass is built per ordered field tuple; they are immortal and heavy for the collector: keep a small pool)
-            if len(ev) > 4 and ev[4] and d and (tuple(d) in self._TC or len(self._TC) < 24):
+            if [k for k, _ in kids] == ["params"] and not leaves:
+                # `TensorDictParams(td, no_convert="skip")`: the wrapper over the very tensordict (ctor with the reserved key `params`)
+                from tensordict.nn import TensorDictParams
+                obj = TensorDictParams(self.nodes[kids[0][1]], no_convert="skip")
+                if lock:
+                    obj.lock_()
+                self.nodes.append(obj)
+            elif len(ev) > 4 and ev[4] and d and (tuple(d) in self._TC or len(self._TC) < 24):
                 obj = self.tc_class(list(d))(**d, batch_size=self.bs, device="cpu")
                 if lock:
                     obj.lock_()
@@ -383,8 +399,8 @@ def cls_name(impl: Impl, i):
 def gen_event(rng, impl: Impl, obj_counter):
     """one random legal event, chosen from the current real state"""
     live = [i for i, n in enumerate(impl.nodes) if n is not None]
-    plain = [i for i in live if not impl.is_lazy(impl.nodes[i]) and not impl.is_tc(impl.nodes[i])]
-    has_tc = lambda i: any(impl.is_tc(x) for x in impl.reach(i))
+    plain = [i for i in live if not impl.is_lazy(impl.nodes[i]) and not impl.is_tc(impl.nodes[i]) and not impl.is_params(impl.nodes[i])]
+    has_tc = lambda i: any(impl.is_tc(x) or impl.is_params(x) for x in impl.reach(i))
 
     def fresh_leaves():
         ls = []
@@ -394,6 +410,8 @@ def gen_event(rng, impl: Impl, obj_counter):
         return ls
 
     r = rng.random()
+    if impl.allow_params and plain and r < 0.025:
+        return ("ctor", [("params", rng.choice(plain))], [], rng.random() < 0.4, False)
     if len(live) < 3 or r < 0.16:
         nk = rng.choice([0, 0, 1, 1, 2, 3]) if live else 0
         ks = rng.sample(KID_KEYS, min(nk, len(KID_KEYS)))
@@ -436,11 +454,14 @@ def gen_event(rng, impl: Impl, obj_counter):
     # mutators
     i = rng.choice(live)
     n = impl.nodes[i]
+    if impl.is_params(n):
+        # the mutators of the wrapper unlock its content, call it and lock it again (`_unlock_and_set`): exercised by the sweep
+        return (rng.choice(["lock", "unlock"]), i)
     if not impl.is_tc(n) and not impl.is_lazy(n) and rng.random() < 0.3:
         # through a nested key: walk one or two levels of plain tensordicts below i
         path, cur = [], n
         for _ in range(rng.randint(1, 2)):
-            nxt = [(k, v) for k, v in impl.kids(cur) if not impl.is_lazy(v) and not impl.is_tc(v)]
+            nxt = [(k, v) for k, v in impl.kids(cur) if not impl.is_lazy(v) and not impl.is_tc(v) and not impl.is_params(v)]
             if not nxt:
                 break
             k, cur = rng.choice(nxt)
